@@ -115,6 +115,13 @@ func (r *Reconciler) updateExtendedDaemonsetSetting(ctx context.Context, edsNode
 }
 
 func searchPossibleConflict(instance *datadoghqv1alpha1.ExtendedDaemonsetSetting, nodeList *corev1.NodeList, edsNodeList *datadoghqv1alpha1.ExtendedDaemonsetSettingList) (string, error) {
+	// an unusable selector puts this ExtendedDaemonsetSetting in error, whatever the nodes
+	if instance != nil {
+		if _, err := metav1.LabelSelectorAsSelector(&instance.Spec.NodeSelector); err != nil {
+			return "", err
+		}
+	}
+
 	var edsNodes edsNodeByCreationTimestampAndPhase
 	for id := range edsNodeList.Items {
 		edsNodes = append(edsNodes, &edsNodeList.Items[id])
@@ -126,7 +133,9 @@ func searchPossibleConflict(instance *datadoghqv1alpha1.ExtendedDaemonsetSetting
 		for _, edsNode := range edsNodes {
 			selector, err2 := metav1.LabelSelectorAsSelector(&edsNode.Spec.NodeSelector)
 			if err2 != nil {
-				return "", err2
+				// another ExtendedDaemonsetSetting with an unusable selector selects no node:
+				// it is reported in error by its own reconcile and cannot conflict with this one
+				continue
 			}
 			if selector.Matches(labels.Set(node.Labels)) {
 				if edsNode.Name == instance.Name {
